@@ -332,6 +332,18 @@ PENDING_REASON = ("no static check is registered for this property yet in this r
 NOT_APPLICABLE: dict[str, str] = {}
 
 
+# what the second session changed in HOW each property is decided (the rules themselves are listed in
+# level_claimed.text from the evidence)
+_COMMON = ("; as built: rules are stated per symbolic path of the unit of behaviour with private helpers "
+           "executed in line, roles bound by dataflow (private anchors by role, names as hints), in-memory "
+           "seeded controls and a single-point-mutation sensitivity sweep (thorough tier)")
+TECH_AS_BUILT = {pid: _COMMON for pid in (
+    "C01", "C02", "C05", "C06", "C07", "C08", "C09", "C10", "C12", "C13", "C14", "C15", "C16", "C18", "C19", "C20")}
+TECH_AS_BUILT.update({pid: ("; as built: the analysed methods are interpreted abstractly with private helpers "
+                            "called (field-less self / actor model), roles bound by dataflow, structural in-memory "
+                            "controls and a sensitivity sweep (thorough tier)") for pid in ("C03", "C04", "C11", "C17")})
+
+
 def build() -> dict:
     props = [json.loads(l)["id"] for l in (VERIF / "properties.jsonl").read_text().splitlines() if l.strip()]
     checks = []
@@ -360,7 +372,7 @@ def build() -> dict:
             "engine": "sa",
             "level_claimed": {"category": "other", "text": text, "design_ref": ref},
             "level_note": note,
-            "technique": "static analysis: " + tech,
+            "technique": "static analysis: " + tech + TECH_AS_BUILT.get(pid, ""),
         })
     na = []
     for pid in props:
@@ -385,7 +397,8 @@ def build() -> dict:
             "kind_free_text": "repository-specific static analysers on Python's ast: resolver "
                               "(classes/MRO/callers), exception-aware CFG with await and finally "
                               "instantiation, symbolic term normal forms, order-domain abstract "
-                              "interpreter, table/sibling extractors; no repository code is "
+                              "interpreter, table/sibling extractors, symbolic path walker with "
+                              "helper execution, AST normaliser, sensitivity sweep; no repository code is "
                               "imported or executed",
         }],
         "checks": checks,
@@ -393,7 +406,9 @@ def build() -> dict:
         "notes": "All checks parse /repo's current working tree on every run (stdlib ast under "
                  "/venv/bin/python). Exit 0 held / 1 VIOLATION / 2 ANALYSIS-ERROR (fail closed). "
                  "Known findings: known_findings.json. Seeded defects used to test the checkers: "
-                 "seeded/. Both-ways self-test: ./check selftest.",
+                 "seeded/ (120, each replayed on /repo itself: tools/replay_in_repo.py). Behaviour-preserving "
+                 "refactorings the checks must stay silent on: benign/. Three-way self-test (silent / firing / "
+                 "quiet): ./check selftest.",
     }
 
 
